@@ -14,7 +14,7 @@ Definition loop_sim (st:static) (i:nat) (x:sim) : sim :=
   if until st <=? thd (prog x) then mkSim Done (prog x) (nexts x) (cur x) (last x) (newer x)
   else match tmin (nexts x) with
        | Some m => if teq m (prog x) then mkSim (WaitDeps m) (prog x) (nexts x) (cur x) (last x) (newer x)
-                   else mkSim (Sleep m) (prog x) (nexts x) (cur x) (last x) false
+                   else mkSim (Sleep (sleep_until st i m)) (prog x) (nexts x) (cur x) (last x) false
        | None => mkSim (Sleep (until_t st i)) (prog x) (nexts x) (cur x) (last x) false
        end.
 Definition wake_sim (st:static) (i:nat) (x:sim) : sim :=
@@ -194,6 +194,9 @@ Proof.
   - unfold loop_sim. destruct (until st <=? thd (prog (s i))) eqn:Eu; [simpl; discriminate|].
     destruct (tmin (nexts (s i))) as [m|] eqn:Em.
     + destruct (teq m (prog (s i))) eqn:Et; simpl; [discriminate|]. intros H; injection H as <-. split; [|reflexivity].
+      unfold sleep_until. destruct (tlt (until_t st i) m) eqn:Ecap.
+      { apply Z.leb_gt in Eu. unfold until_t, world_time.
+        destruct (prog (s i)) as [|x r] eqn:Ep; [simpl in Hlen; pose proof (ok_depth st OK i); lia|]. simpl in Eu. apply tlt_first. exact Eu. }
       apply tmin_spec in Em as [Hm _]. specialize (Hlb m Hm).
       destruct (tlt_trichotomy (prog (s i)) m) as [A|[A|A]]; [exact A| |].
       * subst m. assert (teq (prog (s i)) (prog (s i)) = true) by (apply teq_eq; reflexivity). congruence.
